@@ -5,7 +5,7 @@ use crate::engine::Stats;
 use crate::plan::Plan;
 use crate::probe::{decode_fp, from_bytes_fp, from_path_fp, from_str_fp, Dec, Fp};
 use crate::rng::Rng;
-use crate::simio::{ReadFault, ReadStats, SimReader, KINDS};
+use crate::simio::{kind_of, ReadFault, ReadStats, SimReader};
 use std::io::{self, BufRead, BufReader, Cursor, ErrorKind, Read};
 use std::sync::OnceLock;
 
@@ -183,7 +183,7 @@ pub fn read_fault_of(plan: &Plan) -> Option<ReadFault> {
     if !plan.has("fault_at") {
         return None;
     }
-    Some(ReadFault { at: plan.get("fault_at").max(0) as usize, kind: KINDS[plan.get("fault_kind").rem_euclid(5) as usize], sticky: plan.get("fault_sticky") != 0 })
+    Some(ReadFault { at: plan.get("fault_at").max(0) as usize, kind: kind_of(plan.get("fault_kind")), sticky: plan.get("fault_sticky") != 0 })
 }
 
 pub type Outcome = Result<Fp, ErrorKind>;
